@@ -36,6 +36,9 @@ NOTES = {
     "0924": "as 0919",
     "0604": "equivalent: p[:n] with len(p) == n",
     "0525": "equivalent: a 257-byte hijacked reader is wrapped instead of reused; both paths lose nothing (C17)",
+    "0921": "a quoted-string that contains a quoted-pair becomes unparsable: that offer line is skipped and compression is not negotiated, which the properties allow ('only if'); agreement holds",
+    "0923": "the unescaped VALUE of an extension parameter is never used", "0930": "as 0923", "0929": "as 0923 (rest of the element after a quoted value with escapes)",
+    "0927": "as 0921",
     "0524": "equivalent: the hijacked reader is never reused; the wrap path loses nothing either (C17)",
     "0126": "no property: timer.Stop() only releases the timer earlier",
     "0166": "equivalent: the next beginMessage closes the stale writer again, which only returns errWriteClosed (ignored)",
